@@ -28,7 +28,9 @@ RULE = ('Every cell of the shape space above is executed (enumeration), and '
         'other) and argument lists. The event is delivered through '
         '_trigger_event and, on the servers, also as a real EVENT / CONNECT '
         '/ DISCONNECT frame; the chosen target may raise or (coroutine) end '
-        'with CancelledError, after which no other target may be tried. '
+        'with CancelledError, after which no other target may be tried; '
+        'sampled cells may mix sync and coroutine targets and may grow the '
+        'registry between two dispatches of the same event. '
         'Oracle: resolve() - the documented order written '
         'from the property text - names the single target and its exact '
         'argument tuple; the invocation log must contain exactly that entry '
@@ -91,7 +93,16 @@ def strategy(tier):
         # the function handler of the judged event is also registered as the
         # namespace's disconnect handler, with a fixed (old-style) arity, and
         # a disconnect is dispatched first: nothing of it may stick
-        'shared_legacy': st.booleans()}).map(
+        'shared_legacy': st.booleans(),
+        # per kind of target: sync where the cell says coroutine and the
+        # other way round (asyncio classes)
+        'mixed': st.one_of(st.just([False] * 6),
+                           st.lists(st.booleans(), min_size=6, max_size=6)),
+        # the registry grows: the targets marked here are registered first,
+        # the event is dispatched once, then the others are registered and
+        # the event is dispatched again
+        'early': st.one_of(st.none(), st.lists(st.booleans(), min_size=6,
+                                               max_size=6))}).map(
             lambda d: _norm(d, cl))
 
 
@@ -99,7 +110,8 @@ def _norm(d, cl):
     c = dict(cl[d['cell']])
     c.update(ns=d['ns'], args=d['args'], method=d['method'],
              frame=d['frame'], fault=d.get('fault'),
-             shared_legacy=d.get('shared_legacy', False))
+             shared_legacy=d.get('shared_legacy', False),
+             mixed=d.get('mixed'), early=d.get('early'))
     if c['reserved']:
         ev = d['revent']
         if ev == 'connect_error' and not c['cls'].endswith('Client'):
@@ -159,8 +171,11 @@ def _run(case, socketio, cls, aio, server, loop):
     if fault == 'cancel' and not (case['coro'] and aio):
         fault = 'raise'
 
+    mixed = case.get('mixed') or [False] * 6
+
     def mk(kind):
-        if case['coro'] and aio:
+        flip = kind in KINDS and mixed[KINDS.index(kind)]
+        if aio and bool(case['coro']) != bool(flip):
             async def h(*a):
                 log.append((kind, a))
                 if fault == 'cancel' and kind != 'unrelated':
@@ -206,30 +221,45 @@ def _run(case, socketio, cls, aio, server, loop):
                 return 'ret-h'
         obj.on(event, fixed, namespace=ns)
         obj.on('disconnect', fixed, namespace=ns)
-    elif 'h' in present:
-        obj.on(event, mk('h'), namespace=ns)
-    if 'hc' in present:
-        obj.on('*', mk('hc'), namespace=ns)
-    if 'sh' in present:
-        obj.on(event, mk('sh'), namespace='*')
-    if 'sc' in present:
-        obj.on('*', mk('sc'), namespace='*')
+
+    def register(kinds):
+        if 'h' in kinds and not shared:
+            obj.on(event, mk('h'), namespace=ns)
+        if 'hc' in kinds:
+            obj.on('*', mk('hc'), namespace=ns)
+        if 'sh' in kinds:
+            obj.on(event, mk('sh'), namespace='*')
+        if 'sc' in kinds:
+            obj.on('*', mk('sc'), namespace='*')
+        for kind, reg in (('cls', ns), ('scls', '*')):
+            if kind in kinds:
+                o = nsbase(reg)
+                if case['method']:
+                    setattr(o, 'on_' + event, mk(kind))
+                obj.register_namespace(o)
+
     if case['unrelated'] in (True, 'both'):
         obj.on('unrelated_ev', mk('unrelated'), namespace=ns)
     if case['unrelated'] in ('star', 'both'):
         obj.on('unrelated_ev', mk('unrelated'), namespace='*')
-    for kind, reg in (('cls', ns), ('scls', '*')):
-        if kind in present:
-            o = nsbase(reg)
-            if case['method']:
-                setattr(o, 'on_' + event, mk(kind))
-            obj.register_namespace(o)
 
     def run(x):
         return loop.run(x) if aio else x
 
     reserved = case['reserved']
-    want = resolve(present, ns, event, args, reserved, case['method'])
+    early = None
+    if case.get('early') and not shared and not fault:
+        early = [k for k, b in zip(KINDS, case['early'])
+                 if b and k in present]
+        if len(early) == len(present):
+            early = None
+    grown = False
+    if early is not None:
+        register(early)
+        want = resolve(early, ns, event, args, reserved, case['method'])
+    else:
+        register(present)
+        want = resolve(present, ns, event, args, reserved, case['method'])
 
     def compare(what, wargs_prefix=()):
         if want is None:
@@ -274,6 +304,24 @@ def _run(case, socketio, cls, aio, server, loop):
             raise Violation('legacy-disconnect-fallback',
                             'disconnect dispatched to the old-style handler: '
                             '%r' % (log,))
+        log.clear()
+    if early is not None:
+        # the event on the smaller registry, then the registry grows
+        try:
+            ret = run(obj._trigger_event(event, ns, *args))
+        except Exception as e:
+            v = core.as_violation(e)
+            if v is None:
+                raise
+            raise v
+        compare('_trigger_event before the registry grew')
+        if want is not None and ret != 'ret-' + want[0]:
+            raise Violation('return-value-lost', 'before the registry '
+                            'grew: %r' % (ret,))
+        register([k for k in present if k not in early])
+        w2 = resolve(present, ns, event, args, reserved, case['method'])
+        grown = w2 != want
+        want = w2
         log.clear()
     faulted = False
     try:
@@ -337,7 +385,14 @@ def _run(case, socketio, cls, aio, server, loop):
             {'cls', 'scls'} & set(present)) else ['ack']
         if len(got) != len(wack):
             raise Violation('frame-ack', 'want %r got %r' % (wack, got))
-    return _labels(case)
+    labels = _labels(case)
+    if early is not None:
+        labels['registry_grew'] = True
+        if grown:
+            labels['target_changed_after_growth'] = True
+    if aio and any(mixed):
+        labels['sync_and_coroutine_targets'] = True
+    return labels
 
 
 KF_CLIENT = 'client-skips-catch-all-namespace'
